@@ -42,29 +42,55 @@ struct Params
 {
     int proc{0}, fs{44100}, R{5};
     double T{-10}, W{0}, tA{0}, tR{0}, hold{0};
+    uint64_t fr{0};   // 0: the signal is processed by ONE process() call; otherwise seed of a split into consecutive frames
     ld invR() const { return proc == 1 ? 0.0L : 1.0L / R; }
 };
 Params params_of(const Json& c) {
     Params p;
     p.proc = c.geti("proc"); p.fs = c.geti("fs"); p.R = c.geti("R", 1);
     p.T = c.getd("T"); p.W = c.getd("W", 0); p.tA = c.getd("tA", 0); p.tR = c.getd("tR", 0); p.hold = c.getd("hold", 0);
+    p.fr = c.has("fr") ? c.getu("fr") : 0;
     return p;
 }
 void put_params(Json& j, const Params& p) {
+    // three quarters of the cases feed the signal frame by frame (the static-curve, ceiling, range and smoothing claims
+    // hold "across any number of calls"); the split is derived from the parameters so that generators need not know
+    uint64_t h = key_of(p.proc, p.fs, int64_t(p.T * 1e6), p.R, int64_t(p.W * 1e6), int64_t(p.tA * 1e9), int64_t(p.tR * 1e9), int64_t(p.hold * 1e9));
+    j.set("fr", (long long)((h % 4 == 0) ? 0 : ((h >> 16) | 1)));
     j.set("proc", p.proc).set("fs", p.fs).set("T", p.T).set("R", p.R).set("W", p.W).set("tA", p.tA).set("tR", p.tR).set("hold", p.hold);
 }
 
-// one process() call on a fresh object
+// a fresh object; the signal is fed in one process() call (fr == 0) or as consecutive frames of generated sizes
 void run_proc(const Params& p, const std::vector<double>& x, std::vector<double>& out, std::vector<double>& gain, bool defaults = false) {
-    arr_real in = to_arr(x);
-    arr_real o, g;
-    if (p.proc == 0) { Compressor c(p.fs, p.T, p.R, p.W, p.tA, p.tR); auto r = c.process(in); o = r.out; g = r.gain; }
+    std::vector<size_t> cuts;   // frame boundaries
+    if (p.fr != 0 && x.size() > 1) {
+        Rng fr(p.fr);
+        size_t pos = 0;
+        const int mode = fr.range(0, 3);
+        while (pos < x.size()) {
+            size_t f = mode == 0 ? size_t(fr.range(1, 7)) : mode == 1 ? size_t(64) << fr.range(0, 3) : mode == 2 ? size_t(fr.range(1, int(std::max<size_t>(2, x.size() / 2)))) : (fr.coin() ? 1 : size_t(fr.range(100, 1000)));
+            pos = std::min(x.size(), pos + f);
+            cuts.push_back(pos);
+        }
+    } else cuts.push_back(x.size());
+    out.clear();
+    gain.clear();
+    auto feed = [&](auto& proc) {
+        size_t a = 0;
+        for (size_t b : cuts) {
+            arr_real in(int(b - a));
+            for (size_t i = a; i < b; ++i) in[int(i - a)] = x[i];
+            auto r = proc.process(in);
+            out.insert(out.end(), r.out.begin(), r.out.end());
+            gain.insert(gain.end(), r.gain.begin(), r.gain.end());
+            a = b;
+        }
+    };
+    if (p.proc == 0) { Compressor c(p.fs, p.T, p.R, p.W, p.tA, p.tR); feed(c); }
     else if (p.proc == 1) {
-        if (defaults) { Limiter l(p.fs, p.T, p.W); auto r = l(in); o = r.out; g = r.gain; }   // attack defaults to 0, release to 0.2
-        else { Limiter l(p.fs, p.T, p.W, p.tA, p.tR); auto r = l.process(in); o = r.out; g = r.gain; }
-    } else { NoiseGate n(p.fs, p.T, p.tA, p.tR, p.hold); auto r = n.process(in); o = r.out; g = r.gain; }
-    out.assign(o.begin(), o.end());
-    gain.assign(g.begin(), g.end());
+        if (defaults) { Limiter l(p.fs, p.T, p.W); feed(l); }   // attack defaults to 0, release to 0.2
+        else { Limiter l(p.fs, p.T, p.W, p.tA, p.tR); feed(l); }
+    } else { NoiseGate n(p.fs, p.T, p.tA, p.tR, p.hold); feed(n); }
 }
 
 // gain in [0, 1] and out = x*gain, for every sample; returns false after recording a failure
@@ -768,4 +794,5 @@ static void agcm_gen(Ctx& ctx) {
     });
 }
 
+VK_FRESH_THREADS;
 VK_MAIN("C20")
